@@ -16,6 +16,7 @@ typedef struct Obj {
     int kind; void *addr;
     int owner;                 /* mutex: holder or -1; rwlock: writer or -1 */
     int readers; uint8_t rd_by[MAXT];
+    int prefer_writer;         /* rwlock created with PTHREAD_RWLOCK_PREFER_WRITER_NONRECURSIVE_NP: new readers wait behind a waiting writer */
     int waiters[MAXT], nwait;  /* cond */
     int destroyed;
 } Obj;
@@ -58,6 +59,7 @@ uint32_t pthread_model_fp(void)
 int mc_mutex_owner(const void *m) { Obj *o = obj_find((void *)m, K_MUTEX); return o ? o->owner : -2; }
 long mc_model_live(int kind) { return live_objs[kind]; }
 
+static int writer_waits(Obj *o) { int i; for (i = 0; i < nthreads; i++) if (T[i].used && !T[i].finished && T[i].pend_kind == OP_WRLOCK && T[i].pend_obj == o->addr) return 1; return 0; }
 int op_enabled(Thread *t)
 {
     Obj *o;
@@ -67,7 +69,7 @@ int op_enabled(Thread *t)
     case OP_COND_BLOCKED: {
         if (!t->woken) return 0;
         o = obj_find(t->cond_mutex, K_MUTEX); return o ? o->owner == -1 : 1; }
-    case OP_RDLOCK: o = obj_find(t->pend_obj, K_RWLOCK); return o ? o->owner == -1 : 1;
+    case OP_RDLOCK: o = obj_find(t->pend_obj, K_RWLOCK); return o ? (o->owner == -1 && !(o->prefer_writer && o->readers > 0 && writer_waits(o))) : 1;
     case OP_WRLOCK: o = obj_find(t->pend_obj, K_RWLOCK); return o ? (o->owner == -1 && o->readers == 0) : 1;
     case OP_JOIN: return ((Thread *)t->pend_obj)->finished;
     case OP_WAITALL: { int i; for (i = 0; i < nthreads; i++) if (&T[i] != t && T[i].used && !T[i].finished) return 0; return 1; }
@@ -201,8 +203,18 @@ int __wrap_pthread_cond_broadcast(pthread_cond_t *c)
     return 0;
 }
 
-/* ------------------------------------------------------------------ rwlock (union of reader- and writer-preferring behaviours) */
-int __wrap_pthread_rwlock_init(pthread_rwlock_t *l, const pthread_rwlockattr_t *a) { (void)a; sched_point(OP_RWMISC, l, 0); if (!obj_find(l, K_RWLOCK)) obj_new(l, K_RWLOCK); return 0; }
+/* ------------------------------------------------------------------ rwlock
+ * default attributes: a read lock is granted whenever no writer holds the lock (glibc's default, reader preferring).
+ * PTHREAD_RWLOCK_PREFER_WRITER_NONRECURSIVE_NP (the only kind glibc treats differently): while readers hold the lock and a
+ * writer waits, further readers wait as well and tryrdlock reports EBUSY.  The pthread_rwlockattr_* functions run for real. */
+int __wrap_pthread_rwlock_init(pthread_rwlock_t *l, const pthread_rwlockattr_t *a)
+{
+    Obj *o; int kind = 0;
+    sched_point(OP_RWMISC, l, 0);
+    o = obj_find(l, K_RWLOCK); if (!o) o = obj_new(l, K_RWLOCK);
+    if (a && pthread_rwlockattr_getkind_np(a, &kind) == 0) o->prefer_writer = kind == PTHREAD_RWLOCK_PREFER_WRITER_NONRECURSIVE_NP;
+    return 0;
+}
 int __wrap_pthread_rwlock_destroy(pthread_rwlock_t *l)
 {
     Obj *o; sched_point(OP_RWMISC, l, 1);
@@ -225,7 +237,7 @@ int __wrap_pthread_rwlock_tryrdlock(pthread_rwlock_t *l)
     Obj *o; obj_need(l, K_RWLOCK, "pthread_rwlock_tryrdlock");
     sched_point(OP_TRYRDLOCK, l, 0);
     o = obj_need(l, K_RWLOCK, "pthread_rwlock_tryrdlock");
-    if (o->owner != -1) { ch_note(0xEB); return EBUSY; }
+    if (o->owner != -1 || (o->prefer_writer && o->readers > 0 && writer_waits(o))) { ch_note(0xEB); return EBUSY; }
     o->readers++; o->rd_by[my_tid]++; mon_acquire_obj(l);
     return 0;
 }
